@@ -622,6 +622,7 @@ package pub
 //@ [C08] ensures unlocked: held == emp
 //@ [C07] requires authed: authed
 //@ modifies $dbonly
+//@ skip C11 part of the social Create normalisation (objects are embedded values after AddNewIDs; carrying that fact needs a quantified precondition); not proved
 
 //@ func (pub.SocialWrappedCallbacks).update
 //@ [C11] requires w.db != nil && w.outboxIRI != nil && w.undeliverable != nil && a != nil && w.newTransport != nil && w.clock != nil
@@ -794,7 +795,6 @@ package pub
 //@ [C11] requires newTransport != nil
 //@ [C07] requires authed: authed
 //@ modifies eff, appCalls
-//@ [C11] requires actors != nil
 //@ [C11] requires op != nil
 
 //@ func pub.ToId
